@@ -126,7 +126,7 @@ def daynumTree (d : Nat) : T := .node .daynum (Print.natStr d) []
 def DayFollow (rest : List Char) : Prop := NoDigit rest ∧ ∀ r, rest ≠ ':' :: r
 
 theorem dc_12 : ∀ d, d < 3 → 1 ≤ d → '1' ≤ dc d ∧ dc d ≤ '2' := by decide
-theorem dc_not12 : ∀ d, d < 10 → 3 ≤ d → ¬ ('1' ≤ dc d ∧ dc d ≤ '2') := by decide
+theorem dc_not12 : ∀ d, d < 10 → 3 ≤ d → ¬ dc d ≤ '2' := by decide
 theorem dc_ne0 : ∀ d, d < 10 → 1 ≤ d → '0' ≠ dc d := by decide
 theorem dc_ne3 : ∀ d, d < 10 → d ≠ 3 → '3' ≠ dc d := by decide
 
@@ -194,5 +194,145 @@ theorem run_daynum_none (q : Bool) (inp : List Char) (h : NoDigit inp) : run g_d
     have h3 : '0' ≠ c := by intro e; subst e; exact hc (by decide)
     have h4 : ¬ ('1' ≤ c ∧ c ≤ '9') := fun ⟨a, b⟩ => hc ⟨Char.le_trans (by decide) a, b⟩
     simp [g_daynum, g_daynum_digits, peg, h1, h2, h3, h4]
+
+
+/-- a printed time `HH:MM` (up to `24:00`) that is not followed by `:` is not a day number: this is
+what the look-ahead of `daynum` is for (`Jan 10:00-12:00`) -/
+theorem run_daynum_time_none (q : Bool) (m : Nat) (hm : m ≤ 1440) (r : List Char)
+    (hr : ∀ x, r ≠ ':' :: x) : run g_daynum q (Print.extTime m ++ r) = none := by
+  have hcolon : run (.str [':'] : G) true r = none := str1_none true ':' r hr
+  have hmin := run_minute true (m % 60) (by omega) r
+  unfold Print.extTime
+  rw [pad2_lt100 (m / 60) (by omega)]
+  simp only [List.append_assoc, List.cons_append, List.nil_append]
+  have h2 := dc_digit (m / 60 % 10) (by omega)
+  have d0 : dc 0 = '0' := by decide
+  by_cases h10 : m / 60 < 10
+  · have e1 : m / 60 / 10 = 0 := by omega
+    have e2 : m / 60 % 10 = m / 60 := by omega
+    by_cases h0 : m / 60 = 0
+    · simp [g_daynum, g_daynum_digits, peg, e1, h0, d0]
+    · have h19 := dc_19 (m / 60) h10 (by omega)
+      simp [g_daynum, g_daynum_digits, peg, e1, e2, d0, h19, hmin, hcolon]
+  · have h1 := dc_12 (m / 60 / 10) (by omega) (by omega)
+    simp [g_daynum, g_daynum_digits, peg, h1, h2, hmin, hcolon]
+
+/-! ### `plus_or_minus`, `wday` -/
+
+def pmTree (plus : Bool) : T :=
+  if plus then .node .plus_or_minus ['+'] [.node .plus ['+'] []]
+  else .node .plus_or_minus ['-'] [.node .minus ['-'] []]
+
+@[simp] theorem pmTree_rule (b : Bool) : (pmTree b).rule = .plus_or_minus := by
+  cases b <;> rfl
+
+theorem run_pm_plus (X : List Char) :
+    run g_plus_or_minus false ('+' :: X) = some ⟨[pmTree true], ['+'], X⟩ := by
+  simp [g_plus_or_minus, g_plus, g_minus, peg, pmTree]
+
+theorem run_pm_minus (X : List Char) :
+    run g_plus_or_minus false ('-' :: X) = some ⟨[pmTree false], ['-'], X⟩ := by
+  simp [g_plus_or_minus, g_plus, g_minus, peg, pmTree]
+
+theorem run_pm_none (q : Bool) (inp : List Char) (h1 : ∀ r, inp ≠ '+' :: r) (h2 : ∀ r, inp ≠ '-' :: r) :
+    run g_plus_or_minus q inp = none := by
+  simp [g_plus_or_minus, g_plus, g_minus, peg, str1_none _ '+' inp h1, str1_none _ '-' inp h2]
+
+theorem build_pm_plus : buildPlusOrMinus (pmTree true) = .ok .plus := by
+  simp [buildPlusOrMinus, pmTree, assertRule, bind, Except.bind]
+
+theorem build_pm_minus : buildPlusOrMinus (pmTree false) = .ok .minus := by
+  simp [buildPlusOrMinus, pmTree, assertRule, bind, Except.bind]
+
+def wdRule : Nat → PRule
+  | 0 => .monday | 1 => .tuesday | 2 => .wednesday | 3 => .thursday
+  | 4 => .friday | 5 => .saturday | _ => .sunday
+
+def wdTree (w : Nat) : T := .node .wday (Print.wdayStr w) [.node (wdRule w) (Print.wdayStr w) []]
+
+@[simp] theorem wdTree_rule (w : Nat) : (wdTree w).rule = .wday := rfl
+
+theorem wd_cases {w : Nat} (h : w ≤ 6) : w = 0 ∨ w = 1 ∨ w = 2 ∨ w = 3 ∨ w = 4 ∨ w = 5 ∨ w = 6 := by
+  omega
+
+theorem run_wd (w : Nat) (hw : w ≤ 6) (rest : List Char) :
+    run g_wday false (Print.wdayStr w ++ rest) = some ⟨[wdTree w], Print.wdayStr w, rest⟩ := by
+  rcases wd_cases hw with h | h | h | h | h | h | h <;> subst h <;>
+    simp [g_wday, g_sunday, g_monday, g_tuesday, g_wednesday, g_thursday, g_friday, g_saturday, peg,
+      Print.wdayStr, Print.str, wdTree, wdRule]
+
+theorem build_wd (w : Nat) (hw : w ≤ 6) : buildWday (wdTree w) = .ok w := by
+  rcases wd_cases hw with h | h | h | h | h | h | h <;> subst h <;>
+    simp [buildWday, wdTree, wdRule, assertRule, bind, Except.bind]
+
+theorem run_wd_none_nil (q : Bool) : run g_wday q [] = none := by
+  simp [g_wday, g_sunday, g_monday, g_tuesday, g_wednesday, g_thursday, g_friday, g_saturday, peg]
+
+theorem run_wd_none_head (q : Bool) (c : Char) (r : List Char)
+    (h : c ≠ 'S' ∧ c ≠ 'M' ∧ c ≠ 'T' ∧ c ≠ 'W' ∧ c ≠ 'F') : run g_wday q (c :: r) = none := by
+  obtain ⟨h1, h2, h3, h4, h5⟩ := h
+  simp [g_wday, g_sunday, g_monday, g_tuesday, g_wednesday, g_thursday, g_friday, g_saturday, peg,
+    Ne.symm h1, Ne.symm h2, Ne.symm h3, Ne.symm h4, Ne.symm h5]
+
+theorem run_wd_none_month (q : Bool) (m : Nat) (rest : List Char) :
+    run g_wday q (Print.monthStr m ++ rest) = none := by
+  unfold Print.monthStr
+  split <;>
+    simp [g_wday, g_sunday, g_monday, g_tuesday, g_wednesday, g_thursday, g_friday, g_saturday, peg,
+      Print.str]
+
+/-! ### `day_offset`, with its explicit pair -/
+
+def dayOffTree (off : Int) : T :=
+  .node .day_offset (Print.daysOffset off) [pmTree (decide (off > 0)), pnTree off.natAbs]
+
+@[simp] theorem dayOffTree_rule (off : Int) : (dayOffTree off).rule = .day_offset := rfl
+
+theorem run_day_offset (off : Int) (h0 : off ≠ 0) (rest : List Char) (hr : ∀ r, rest ≠ 's' :: r) :
+    run g_day_offset false (Print.daysOffset off ++ rest) =
+      some ⟨[dayOffTree off], Print.daysOffset off, rest⟩ := by
+  have hn : 0 < off.natAbs := by omega
+  have hnd : NoDigit ([' ', 'd', 'a', 'y'] ++ (if off.natAbs > 1 then ['s'] else []) ++ rest) := by
+    intro c r h; simp at h; rw [← h.1]; decide
+  have hnum := run_positive_number false off.natAbs hn _ hnd
+  have hs : run (.opt (.str ['s']) : G) false ((if off.natAbs > 1 then ['s'] else []) ++ rest)
+      = some ⟨[], (if off.natAbs > 1 then ['s'] else []), rest⟩ := by
+    by_cases h1 : off.natAbs > 1
+    · simp [h1, peg]
+    · simp [h1, peg, str1_none false 's' rest hr]
+  unfold dayOffTree
+  rw [daysOffset_eq off h0]
+  by_cases hp : off > 0
+  · simp only [hp, if_true, List.cons_append, List.nil_append, List.append_assoc] at hnum ⊢
+    simp [g_day_offset, g_space, peg, run_pm_plus, hnum, hs, pnTree]
+  · simp only [hp, if_false, List.cons_append, List.nil_append, List.append_assoc] at hnum ⊢
+    simp [g_day_offset, g_space, peg, run_pm_minus, hnum, hs, pnTree]
+
+theorem build_day_offset (off : Int) (h0 : off ≠ 0) (hb : off.natAbs < i64Bound) :
+    buildDayOffset (dayOffTree off) = .ok off := by
+  have hbp := build_pn off.natAbs (by unfold u64Bound; unfold i64Bound at hb; omega)
+  have hnb : ¬ i64Bound ≤ off.natAbs := by omega
+  by_cases hp : off > 0
+  · have e : ((off.natAbs : Nat) : Int) = off := by omega
+    simp [buildDayOffset, dayOffTree, assertRule, hp, build_pm_plus, hbp, hnb, e, bind, Except.bind]
+  · have e : -((off.natAbs : Nat) : Int) = off := by omega
+    simp [buildDayOffset, dayOffTree, assertRule, hp, build_pm_minus, hbp, hnb, e, bind, Except.bind]
+
+/-- `day_offset` needs a space and a sign -/
+def NoDayOffset (inp : List Char) : Prop := ∀ c r, inp = ' ' :: c :: r → c ≠ '+' ∧ c ≠ '-'
+
+theorem run_day_offset_none (q : Bool) (inp : List Char) (h : NoDayOffset inp) :
+    run g_day_offset q inp = none := by
+  cases inp with
+  | nil => simp [g_day_offset, g_space, peg]
+  | cons c r =>
+    by_cases hc : c = ' '
+    · subst hc
+      have hpm : run g_plus_or_minus q r = none := by
+        apply run_pm_none
+        · intro r' e; exact (h '+' r' (by rw [e])).1 rfl
+        · intro r' e; exact (h '-' r' (by rw [e])).2 rfl
+      simp [g_day_offset, g_space, peg, hpm]
+    · simp [g_day_offset, g_space, peg, Ne.symm hc]
 
 end OH.Proofs.Syn.Wide
